@@ -140,6 +140,8 @@ class ExposeSensor(Device):
         if (
             telegram.direction is TelegramDirection.OUTGOING
             and self._periodic_send_task is not None
+            # not while its tasks are removed - eg. a telegram drained by `XKNX.stop()`
+            and self._periodic_send_task.xknx is not None
         ):
             self._periodic_send_task.restart()
 
